@@ -20,7 +20,7 @@ impl Conv {
         let mut rows = vec![];
         let mut d = from;
         while d <= to {
-            let r = prayer_times_dt(&p0, site.loc(), d, None);
+            let r = pt(&p0, site.loc(), d, None);
             l.evals += 1;
             let mut row = [None; 6];
             for (i, pr) in SIX.iter().enumerate() {
@@ -73,7 +73,7 @@ pub fn judge(ctx: &Ctx, l: &mut Local, m: &Params, site: Site, date: NaiveDate, 
         let mut p = m.clone();
         p.extreme_latitude_method = pol;
         p.round_seconds = RoundSeconds::None;
-        let r = prayer_times_dt(&p, site.loc(), date, None);
+        let r = pt(&p, site.loc(), date, None);
         l.evals += 1;
         let case = || PtCase::new(&p, site, date).with_extra(json!({"expected_good_date": date_json(gd), "distance_days": dist, "tie": tie}));
         for (i, pr) in SIX.iter().enumerate() {
